@@ -514,51 +514,111 @@ def cross(a, b):
     return (a[1] * b[2] - a[2] * b[1], a[2] * b[0] - a[0] * b[2], a[0] * b[1] - a[1] * b[0])
 
 
+def dot(a, b):
+    return a[0] * b[0] + a[1] * b[1] + a[2] * b[2]
+
+
+def capture_fg(v, S):
+    """The variational loop (ordinal 4) does not run (N_var_config = 0); its handler is used to read the locals
+    f, g, fd, gd, ri, X, Gs[] of the real code at that point."""
+    def h(eng, st, n, cond, inc, body):
+        from engine.csym import NORMAL, Unsupported, as_bool
+        for nm in ("f", "g", "fd", "gd", "ri", "X"):
+            S.cap[nm] = eng.local(st, nm)
+        S.cap["Gs"] = list(eng.local(st, "Gs").items)
+        c = simp(as_bool(eng.rvalue(st, cond)))
+        if not z3.is_false(c):
+            raise Unsupported("variational loop expected not to run in this task")
+        return NORMAL
+    v.loop(SOLVER, 4, invariant=h, mode="custom")
+
+
 @P.task("kepler_solver.fg", fn=SOLVER, z3_ms=30000)
 def _(v):
-    """Every solver path (elliptic/hyperbolic x quartic/Newton x converged/bisection), exit-with-root: the new state is
-    the Gauss f,g image of the old one; angular momentum, energy and eccentricity vector are conserved; the new
-    radius and radial velocity are those of the universal-variable solution; other particles are untouched."""
+    """Every solver path (elliptic|hyperbolic merged) x (quartic | Newton) x (converged | bisection), exit-with-root:
+    the code's orbit constants are the specification's, its f, g, fd, gd are the Gauss functions in universal
+    variables, and the new state is their image of the old one; other particles untouched."""
     S = solver_setup(v)
     install_exit_with_root(v, S)
+    capture_fg(v, S)
     v.call(SOLVER, S.rp, S.pj.ptr, S.M, S.i, S.dt)
     c, M, dt = S.cap, S.M, S.dt
     G = S.rec[-1]["G"]
     X = S.rec[-1]["X"]
-    r0, beta, eta0, zeta0 = c["r0"], c["beta"], c["eta0"], c["zeta0"]
+    r0, r0i, ri, beta, eta0, zeta0 = c["r0"], c["r0i"], c["ri"], c["beta"], c["eta0"], c["zeta0"]
     p = S.p0
-    q = {f: S.pj.leaf(S.i, f) for f in p}
+    q = {f: simp(S.pj.leaf(S.i, f)) for f in p}
     # the code's orbit constants are the ones of the specification
     v.prove("def.r0", z3.And(r0 * r0 == S.x2, r0 > 0))
-    v.prove("def.beta", beta == 2 * M / r0 - S.v2, order=PZ)
+    v.prove("def.r0i", r0i * r0 == 1, order=PZ)
+    v.prove("def.beta", beta == 2 * M * r0i - S.v2, order=PZ)
     v.prove("def.eta0", eta0 == S.xv, order=PZ)
     v.prove("def.zeta0", zeta0 == M - beta * r0, order=PZ)
     v.prove("def.dt", c["_dt"] == dt)
-    v.prove("root", r0 * X + eta0 * G[2] + zeta0 * G[3] == dt, order=PZ)
+    # exit state of the iteration
+    for k in range(4):
+        v.prove("exit.Gs%d_is_G%d_of_final_iterate" % (k, k), c["Gs"][k] == G[k])
+    v.prove("exit.root", r0 * X + eta0 * G[2] + zeta0 * G[3] == dt, order=PZ)
     rr = r0 + eta0 * G[1] + zeta0 * G[2]
-    f, g = 1 - M * G[2] / r0, dt - M * G[3]
-    fd, gd = -M * G[1] / (r0 * rr), 1 - M * G[2] / rr
+    v.prove("radius.ri", ri * rr == 1, order=PZ)
+    v.prove("radius.positive", rr > 0)
+    # Gauss functions (the code stores f-1 and gd-1)
+    v.prove("gauss.f", 1 + c["f"] == 1 - M * G[2] * r0i, order=PZ)
+    v.prove("gauss.g", c["g"] == dt - M * G[3], order=PZ)
+    v.prove("gauss.fd", c["fd"] == -M * G[1] * r0i * ri, order=PZ)
+    v.prove("gauss.gd", 1 + c["gd"] == 1 - M * G[2] * ri, order=PZ)
     for a, b in (("x", "vx"), ("y", "vy"), ("z", "vz")):
-        v.prove("gauss.pos." + a, q[a] == f * p[a] + g * p[b], order=PZ)
-        v.prove("gauss.vel." + b, q[b] == fd * p[a] + gd * p[b], order=PZ)
-    x0, v0 = (p["x"], p["y"], p["z"]), (p["vx"], p["vy"], p["vz"])
-    x1, v1 = (q["x"], q["y"], q["z"]), (q["vx"], q["vy"], q["vz"])
-    L0, L1 = cross(x0, v0), cross(x1, v1)
-    for k, a in enumerate("xyz"):
-        v.prove("angular_momentum." + a, L1[k] == L0[k], order=PZ)
-    x1sq = x1[0] * x1[0] + x1[1] * x1[1] + x1[2] * x1[2]
-    v1sq = v1[0] * v1[0] + v1[1] * v1[1] + v1[2] * v1[2]
-    v.prove("radius", x1sq == rr * rr, order=PZ)
-    v.prove("radius_positive", rr > 0)
-    v.prove("energy", 2 * M / rr - v1sq == beta, order=PZ)
-    v.prove("radial_velocity", x1[0] * v1[0] + x1[1] * v1[1] + x1[2] * v1[2] == eta0 * G[0] + zeta0 * G[1], order=PZ)
-    # eccentricity vector  e = v x L / M - x/|x|
-    vL0, vL1 = cross(v0, L0), cross(v1, L1)
-    for k, a in enumerate("xyz"):
-        v.prove("eccentricity_vector." + a, vL1[k] / M - x1[k] / rr == vL0[k] / M - x0[k] / r0, order=PZ)
+        v.prove("update.pos." + a, q[a] == (1 + c["f"]) * p[a] + c["g"] * p[b], order=PZ)
+        v.prove("update.vel." + b, q[b] == c["fd"] * p[a] + (1 + c["gd"]) * p[b], order=PZ)
     # frame
     j = v.int("j")
     v.assume(j != S.i)
     for fl in ("x", "y", "z", "vx", "vy", "vz"):
         v.prove("frame.others." + fl, S.pj.leaf(j, fl) == z3.Select(S.old[fl], j))
     v.prove("frame.mass", S.pj.array("m") == S.old["m"])
+
+
+@P.task("kepler_solver.fg_is_kepler_flow", fn=SOLVER)
+def _(v):
+    """Lemma layer (mathematics over the clauses proved in kepler_solver.fg, no code): a state update
+    x' = F x + g v, v' = fd x + Gd v with the Gauss functions F = 1 - M G2/r0, g = dt - M G3, fd = -M G1/(r0 r),
+    Gd = 1 - M G2/r, r = r0 + eta0 G1 + zeta0 G2, G's obeying the G relations and the universal Kepler equation,
+    conserves angular momentum, energy and the eccentricity vector, and lands at radius r with r rdot = eta0 G0 + zeta0 G1."""
+    x = [v.real("x%d" % k) for k in range(3)]
+    w = [v.real("v%d" % k) for k in range(3)]
+    r0, r0i, ri, M, dt, beta, eta0, zeta0, v2, X = (v.real(n) for n in
+                                                    ("r0", "r0i", "ri", "M", "dt", "beta", "eta0", "zeta0", "v2", "X"))
+    G = [v.real("G%d" % k) for k in range(4)]
+    F_, g_, fd_, Gd_ = v.real("F"), v.real("g"), v.real("fd"), v.real("Gd")
+    rr = r0 + eta0 * G[1] + zeta0 * G[2]
+    scal = [r0i * r0 == 1, ri * rr == 1, zeta0 == M - beta * r0, v2 == 2 * M * r0i - beta,
+            G[0] == 1 - beta * G[2], G[1] == X - beta * G[3], G[1] * G[1] == G[2] * (1 + G[0]),
+            r0 * X + eta0 * G[2] + zeta0 * G[3] == dt,
+            F_ == 1 - M * G[2] * r0i, g_ == dt - M * G[3], fd_ == -M * G[1] * r0i * ri, Gd_ == 1 - M * G[2] * ri]
+    W = F_ * Gd_ - g_ * fd_
+    v.lemma("wronskian", scal, W == 1, order=PZ)
+    # quadratic forms of the new state in terms of r0^2 = x.x, eta0 = x.v, v2 = v.v
+    x1 = [F_ * x[k] + g_ * w[k] for k in range(3)]
+    v1 = [fd_ * x[k] + Gd_ * w[k] for k in range(3)]
+    vec = [dot(x, x) == r0 * r0, dot(x, w) == eta0, dot(w, w) == v2]
+    L0, L1 = cross(x, w), cross(x1, v1)
+    for k, a in enumerate("xyz"):
+        v.lemma("angular_momentum.bilinear." + a, [], L1[k] == W * L0[k], order=PZ)
+    v.lemma("radius.quadratic_form", vec, dot(x1, x1) == F_ * F_ * r0 * r0 + 2 * F_ * g_ * eta0 + g_ * g_ * v2, order=PZ)
+    v.lemma("speed.quadratic_form", vec, dot(v1, v1) == fd_ * fd_ * r0 * r0 + 2 * fd_ * Gd_ * eta0 + Gd_ * Gd_ * v2, order=PZ)
+    v.lemma("xv.quadratic_form", vec, dot(x1, v1) == F_ * fd_ * r0 * r0 + (F_ * Gd_ + g_ * fd_) * eta0 + g_ * Gd_ * v2,
+            order=PZ)
+    v.lemma("radius", scal, F_ * F_ * r0 * r0 + 2 * F_ * g_ * eta0 + g_ * g_ * v2 == rr * rr, order=PZ)
+    v.lemma("energy", scal, 2 * M * ri - (fd_ * fd_ * r0 * r0 + 2 * fd_ * Gd_ * eta0 + Gd_ * Gd_ * v2) == beta, order=PZ)
+    v.lemma("radial_velocity", scal, F_ * fd_ * r0 * r0 + (F_ * Gd_ + g_ * fd_) * eta0 + g_ * Gd_ * v2 ==
+            eta0 * G[0] + zeta0 * G[1], order=PZ)
+    # eccentricity vector e = v x L / M - x/|x|, with L' = L:  e' - e = A x + B v
+    #   x x L = eta0 x - r0^2 v,  v x L = v2 x - eta0 v
+    for k, a in enumerate("xyz"):
+        v.lemma("eccentricity_vector.triple_products." + a, vec,
+                z3.And(cross(x, L0)[k] == eta0 * x[k] - r0 * r0 * w[k], cross(w, L0)[k] == v2 * x[k] - eta0 * w[k]), order=PZ)
+    Mi = v.real("Mi")
+    A = (fd_ * eta0 + (Gd_ - 1) * v2) * Mi - F_ * ri + r0i
+    B = (-fd_ * r0 * r0 - (Gd_ - 1) * eta0) * Mi - g_ * ri
+    v.lemma("eccentricity_vector.x_coefficient", scal + [Mi * M == 1], A == 0, order=PZ)
+    v.lemma("eccentricity_vector.v_coefficient", scal + [Mi * M == 1], B == 0, order=PZ)
